@@ -130,7 +130,11 @@ func Star(n int) *DenseGraph {
 		}
 	}
 
-	return &DenseGraph{NumberOfVertices: n, NumberOfEdges: n - 1, DegreeSequence: degrees, Edges: edges}
+	m := n - 1
+	if n == 0 {
+		m = 0
+	}
+	return &DenseGraph{NumberOfVertices: n, NumberOfEdges: m, DegreeSequence: degrees, Edges: edges}
 }
 
 //RookGraph returns the n x m Rook graph i.e. the graph representing the moves of a rook on an n x m chessboard.
